@@ -271,7 +271,7 @@ func ExploreBounded(t *testing.T, e explore.Env, maxPreempt int, maxExec int64, 
 		}()
 		f, trace, steps, outcome := runOne(t, mk, c, func(f *explore.Fail, trace []string) {
 			noted, notedTrace = f, trace
-			explore.NoteCurrent(e, f.Key, f.What+" | schedule: "+fmt.Sprint(trace))
+			explore.NoteCurrentChoices(e, f.Key, f.What+" | schedule: "+fmt.Sprint(trace), append([]int{}, c.Trace...))
 		})
 		res.Steps += steps
 		if outcome != "" {
